@@ -304,6 +304,14 @@ func (x *Exec) Load(st *State, p Value, t types.Type) Value {
 // wfLoaded adds the heap well-formedness facts for reference-like leaves of a
 // value read from memory: references were allocated before now.
 func (x *Exec) wfLoaded(st *State, v Value) Value {
+	if x.specMode > 0 {
+		// Inside a spec function the well-formedness of a loaded value must not become part of
+		// the path condition: the conditions under which the function's return values are merged
+		// would then exclude ill-formed heaps, and the merged result would be wrong (not merely
+		// unspecified) for them. The facts are handed to the calling state instead.
+		x.specWF = append(x.specWF, x.wf(v, st.Alloc))
+		return v
+	}
 	st.PC = x.C.And(st.PC, x.wf(v, st.Alloc))
 	return v
 }
